@@ -253,20 +253,20 @@ def stale_alignment(packed, ipos, items):
     return False
 
 
-ITER_START_ERRORS = ('err:CorruptedError', 'err:CorruptedDataError', 'err:ValueError')
-ITER_SIG = 'C09:ro-iterator-start-raises-on-torn-tail'
+ITER_SIG = 'C09:ro-iterator-start-%s-on-torn-tail'
 
 
-def split_known_iterator_start(got, want, unfinished_tail):
-    """the recorded open finding and nothing but it: (read-only dump) iterator(start) RAISED where the
-    committed-prefix answer was expected, on a file with an unfinished tail; entries that did not raise
-    are equal.  Returns (known?, got', want') with the key removed from both when known."""
-    g, w = got.get('iterator_start'), want.get('iterator_start')
-    if unfinished_tail and isinstance(g, list) and isinstance(w, list) and len(g) == len(w) and g != w and \
-            all(x == y or x in ITER_START_ERRORS for x, y in zip(g, w)):
-        return True, {k: v for k, v in got.items() if k != 'iterator_start'}, \
-            {k: v for k, v in want.items() if k != 'iterator_start'}
-    return False, got, want
+def split_known_iterator_start(got, want, unfinished_tail, tids):
+    """the recorded open finding and nothing but it (c01_lib.classify_iterator_start): read-only dump of a
+    file with an unfinished tail, all keys but iterator_start equal to the committed prefix's.
+    Returns (kind | None, got', want') with the key removed from both when it is the known class."""
+    if unfinished_tail:
+        g2 = {k: v for k, v in got.items() if k != 'iterator_start'}
+        w2 = {k: v for k, v in want.items() if k != 'iterator_start'}
+        kind = L.classify_iterator_start(got, want, tids)
+        if kind:
+            return kind, g2, w2
+    return None, got, want
 
 
 def first_diff(a, b):
@@ -417,11 +417,11 @@ def part_a(ck, hist, tag, pack=None, model=True):
             skip = ('datafs_after',)
             a = {k: v for k, v in ro_base['dump'].items() if k not in skip and not k.startswith('after_writes:')}
             b = {k: v for k, v in base['dump'].items() if k not in skip and not k.startswith('after_writes:')}
-            isknown, a, b = split_known_iterator_start(a, b, torn)
+            isknown, a, b = split_known_iterator_start(a, b, torn, tids)
             if isknown:
-                viol.append((ITER_SIG, 'read-only open of %s: iterator(start) raises on the unfinished tail (%s); all '
-                             'other queries are judged separately' % (name, sorted({x for x in ro_base['dump'][
-                                 'iterator_start'] if isinstance(x, str)})),
+                viol.append((ITER_SIG % isknown, 'read-only open of %s: iterator(start) %s on the unfinished tail (%s); '
+                             'all other queries are judged separately' % (name, isknown, str(ro_base['dump'][
+                                 'iterator_start'])[:200]),
                              dict(history=hist, pack=pack, target=name, variant='read-only')))
             diff = first_diff(a, b)
             if diff:
@@ -808,10 +808,10 @@ def ro_session(ck, spec):
                 want = L.dump_storage(ref, oids, tids)
             finally:
                 ref.close()
-            isknown, got, want = split_known_iterator_start(got, want, os.path.getsize(path) > committed_pos)
+            isknown, got, want = split_known_iterator_start(got, want, os.path.getsize(path) > committed_pos, tids)
             if isknown:
-                viol.append((ITER_SIG, 'read-only instance (%s): iterator(start) raises on the unfinished tail; all other '
-                             'queries are judged separately' % mode, dict(spec, calls=[])))
+                viol.append((ITER_SIG % isknown, 'read-only instance (%s): iterator(start) %s on the unfinished tail; all '
+                             'other queries are judged separately' % (mode, isknown), dict(spec, calls=[])))
             diff = first_diff(got, want)
             if diff:
                 viol.append(('C09:ro-shows-uncommitted-tail', 'read-only instance (%s) does not show the state of the '
@@ -941,7 +941,7 @@ def main(argv=None):
             ck.violation('C09:ro-session-raised', 'setting up / running read-only session %d raised %s: %s'
                          % (i, type(e).__name__, str(e)[:160]), spec)
             continue
-        if viol and len(spec['calls']) > 2 and any(x[0] != ITER_SIG for x in viol):
+        if viol and len(spec['calls']) > 2 and any(not x[0].startswith('C09:ro-iterator-start-') for x in viol):
             # shrink the call list (the session is self-contained)
             sig0 = viol[0][0]
 
